@@ -262,3 +262,111 @@ def add(x, y):
 
 def add3(x, y, z):
     return x + 10 * y + 100 * z
+
+
+# map() functions by the TYPE of what they return (map == builtin map whatever the values are:
+# containers, empty containers, None, strings - anything a result list could be confused with)
+def vlist(x):
+    return list(range(x))            # [] for the first item
+
+
+def vnest(x):
+    return [[x], [x, x]]
+
+
+def vnone(x):
+    return None
+
+
+def vstr(x):
+    return "ab" * x                  # "" for the first item
+
+
+def vtuple(x):
+    return (x,) * x                  # () for the first item
+
+
+def vdict(x):
+    return {i: x for i in range(x)}  # {} for the first item
+
+
+def vlistsub(x):
+    return _L(range(x))
+
+
+class _L(list):
+    pass
+
+
+VALUE_FNS = ("vlist", "vnest", "vnone", "vstr", "vtuple", "vdict", "vlistsub")
+
+
+# initializers by the SHAPE of the callable (a callable object may be falsy: an empty container
+# of optional hooks with __call__; a partial; a bound method)
+class Hooks:
+    def __init__(self, hooks=()):
+        self.hooks = list(hooks)
+
+    def __len__(self):
+        return len(self.hooks)
+
+    def __call__(self, tag):
+        init(tag)
+        for h in self.hooks:
+            h()
+
+    def run(self, tag):
+        init(tag)
+
+
+class NeverTrue:
+    def __bool__(self):
+        return False
+
+    def __call__(self, tag):
+        init(tag)
+
+
+HOOKS, NEVERTRUE = Hooks(), NeverTrue()
+
+
+# hostile __str__/__repr__: nothing in the library may depend on being able to print a task's
+# exception, callable or arguments
+class SloppyError(Exception):
+    def __str__(self):
+        return "sloppy: " + self.detail          # attribute never set: AttributeError
+
+
+class UnprintableError(Exception):
+    def __repr__(self):
+        raise RuntimeError("repr of the exception raises")
+
+    __str__ = __repr__
+
+
+class BadRepr:
+    def __repr__(self):
+        raise RuntimeError("repr of the argument raises")
+
+    __str__ = __repr__
+
+
+class BadReprCallable(BadRepr):
+    def __call__(self, key):
+        _log("body", key)
+        raise ValueError(key, "boom")
+
+
+def raise_badstr(key):
+    _log("body", key)
+    raise SloppyError(key)
+
+
+def raise_unprintable(key):
+    _log("body", key)
+    raise UnprintableError(key)
+
+
+def raise_with_arg(key, arg=None, **kw):
+    _log("body", key)
+    raise ValueError(key, "boom")
